@@ -8,6 +8,7 @@ import (
 	"bytes"
 	"encoding/hex"
 	"math/big"
+	"syscall"
 
 	"verif/mon"
 	"verif/ref/refcodec"
@@ -22,6 +23,11 @@ func unhex(s string) []byte {
 }
 
 func main() {
+	// Backstop: a decoder that trusts a hostile length can ask for terabytes; with the address space
+	// capped such a request kills this worker ("fatal error: out of memory", reported by ./check as a
+	// violation with the case from the sidecar) instead of the machine.
+	lim := syscall.Rlimit{Cur: 6 << 30, Max: 6 << 30}
+	_ = syscall.Setrlimit(syscall.RLIMIT_AS, &lim)
 	mon.Main("C15", func(c *mon.Ctx) {
 		c.Rule("vlq/amount: bulk values, signature = (byte length) resp. (generator class, decimal digits); script: (generator kind, " +
 			"compression class, compressed length); entry: utxo entry + stxo + txout + outpoint key of one (height, coinbase, amount, script) " +
